@@ -59,6 +59,15 @@ func vfTmuxDecorate(r *vfRand, line string, kinds int, density int, st *vfNoiseS
 		st.junk++
 	}
 	marker := strings.IndexByte(line, ':') + 1
+	if kinds&2 != 0 && kinds&1 != 0 && marker > 1 && r.Intn(3) == 0 {
+		// the junk in front is itself the beginning of a line of the expected type (the pane shows a stale,
+		// partly drawn copy before the wrap): the line is cut at the *last* marker
+		k := marker + r.Intn(vfMin(6, len(line)-marker)+1)
+		out = append(out, line[:k]...)
+		out = append(out, '\r', '\n')
+		st.junk++
+		st.wraps++
+	}
 	for i := 0; i < len(line); i++ {
 		if kinds&1 != 0 && r.Intn(density) == 0 {
 			m := 1 + r.Intn(2)
